@@ -257,5 +257,18 @@ PROPS["C19"] = {
     "technique": "runtime monitoring: black-box wire monitor of the real server process over generated configurations and source addresses",
 }
 
+PROPS["C14"] = {
+    "level": "exploration",
+    "engines": [
+        {"bin": "py", "fn": "c14_programs", "tag": "programs"},
+    ],
+    "min": {"quick": {"programs_run": 5, "values_checked": 1000, "json_literals_checked": 600, "assertions_executed": 4000},
+            "thorough": {"programs_run": 49}},
+    "assumptions": [],
+    "level_text": "Rust programs are generated (types via derive and json_map!, random values, json! literals), compiled against the working tree and executed; the programs' own assertions compare the produced JSON with an independently constructed Value, check both round trips, and compare every json! literal with Value::parse of the equivalent text. The driver counts the assertions that actually ran.",
+    "level_note": "Trusted: the program generator (driver/c14gen.py), rustc. Integers are limited to |v| <= 2^53 for the verdict.",
+    "technique": "runtime monitoring: generated programs with in-program assertion monitors (shape + round-trip + differential against the parser)",
+}
+
 # properties without a check, with the reason (kept current)
 NOT_CLAIMED = {}
